@@ -44,9 +44,12 @@ structure RThread where
   nstop : Nat := 0
   deriving DecidableEq, Repr, Inhabited
 
-/-- stopper: `sN` = `ThreadManager.stop`+N in the `asIs` source, `fN` in the `fixed` source -/
+/-- stopper: `sN` = `ThreadManager.stop`+N in the `asIs` source, `fN` in the `fixed` source; `fr` = the
+    sweep is over and the caller's frame (`bus.stop()`: later 'stop' listeners, `state = STOPPED`)
+    unwinds — a step of its own, so that "the stopper's call has returned" can be observed later than
+    the end of the sweep -/
 inductive SPc where
-  | s2 | s3 | s4 | f2 | f5 | f6 | f7 | done | rterr
+  | s2 | s3 | s4 | f2 | f5 | f6 | f7 | fr | done | rterr
   deriving DecidableEq, Repr, Inhabited
 
 inductive Ev where
@@ -148,11 +151,11 @@ def stepS (m : Mode) (c : Cfg) : Cfg :=
       { setR c c.key { c.rs c.key with nstop := (c.rs c.key).nstop + 1 } with
           spc := .s2, si := none, journal := c.journal ++ [.stop v none] }
     | none => { c with spc := .s2 }
-  | .s4 => retS m { c with d := fun _ => none, slots := [] }
+  | .s4 => { c with d := fun _ => none, slots := [], spc := .fr }
   | .f2 =>
     let c := if c.snapOn then c else { c with snapOn := true, snap := keys c }
     match c.snap with
-    | [] => retS m { c with snapOn := false }
+    | [] => { c with snapOn := false, spc := .fr }
     | k :: r => { c with spc := .f5, snap := r, key := k }
   | .f5 => { remove c c.key with spc := .f6, si := c.d c.key }
   | .f6 =>
@@ -165,6 +168,7 @@ def stepS (m : Mode) (c : Cfg) : Cfg :=
       { setR c c.key { c.rs c.key with nstop := (c.rs c.key).nstop + 1 } with
           spc := .f2, si := none, journal := c.journal ++ [.stop v none] }
     | none => { c with spc := .f2 }
+  | .fr => retS m c
   | .done => c
   | .rterr => c
 
@@ -258,6 +262,7 @@ def RPc.code : RPc → Nat
 
 def SPc.code : SPc → Nat
   | .s2 => 0 | .s3 => 1 | .s4 => 2 | .f2 => 3 | .f5 => 4 | .f6 => 5 | .f7 => 6 | .done => 7 | .rterr => 8
+  | .fr => 9
 
 def optN : Option Nat → String
   | none => "N"
